@@ -1575,6 +1575,20 @@ func (u *Unit) enter(st *State, fr *Frame, b *ssa.BasicBlock) []Outcome {
 		return nil
 	}
 	if fr.top && !u.bounded {
+		// normal exit of an annotated loop (its condition became false): exit clauses are obligations here
+		if fr.from != nil {
+			if lc := u.loopContract(fr, fr.from); lc != nil && !lc.body[b] && len(lc.Exits) > 0 {
+				for _, cl := range lc.Exits {
+					g, err := u.invEnv(st, fr, fr.from).safeFormula(cl, true)
+					if err != nil {
+						u.specError(fmt.Sprintf("loop %d exit %s", lc.Ord, cl.Label), err)
+						return nil
+					}
+					u.oblige(st, fmt.Sprintf("%s#loop%d.exit:%s", fnKey(u.fn), lc.Ord, cl.Label), "loop-exit", u.invTags(cl), g, cl.Text)
+					st.assume(g)
+				}
+			}
+		}
 		if lc := u.loopContract(fr, b); lc != nil {
 			return u.cutLoop(st, fr, b, lc)
 		}
